@@ -956,6 +956,9 @@ def finish(c):
     mode = c["mode"]
     if mode == "seq":
         for st in c["steps"]:
+            # between two calls the caller uses its result: every reference-typed part of the target is overwritten
+            if st["mode"] != "scribble":
+                st.setdefault("mutate", True)
             finish(st)
         return c
     if mode == "scribble":
@@ -1179,7 +1182,7 @@ def systematic(rng):
             cases.append(finish({"mode": "json", "type": St(F("a", P(kind))), "doc": dobj([("a", dn(lit))]), "intent": "limits"}))
             cases.append(finish({"mode": "path", "type": St(F("a", Ptr(P(kind)), O(range=R("[:]".replace(":", "-1e30:1e30"))))),
                                  "doc": dobj([("a", ds(lit))]), "intent": "limits"}))
-            cases.append(finish({"mode": "json", "type": St(F("a", Sl(P(kind))), F("m", Mp(P(kind)))),
+            cases.append(finish({"mode": "json", "type": St(F("a", Sl(P(kind if kind != "uint8" else "uint16"))), F("m", Mp(P(kind)))),
                                  "doc": dobj([("a", {"a": [dn(lit)]}), ("m", dobj([("k", dn(lit))]))]), "intent": "limits"}))
             cases.append(finish({"mode": "json", "type": St(F("a", P(kind), O(str=True))), "doc": dobj([("a", ds(lit))]), "intent": "limits"}))
             if kind in UINT_KINDS or lim >= 0:
@@ -1899,6 +1902,8 @@ def slice_defaults(rng):
         for d in texts:
             n += 1
             mode = modes[n % len(modes)]
+            if "\\" in d and deref(e)["k"] != "string":
+                continue        # a backslash in a JSON default is outside the model's reader
             d = unique(d, deref(e)["k"] == "string")
             if d is None:
                 continue
@@ -2151,6 +2156,59 @@ def decimal_bounds(rng):
                         t = P(kind) if n % 4 else Ptr(P(kind))
                         cases.append(finish({"mode": mode, "type": St(F("a", t, o)), "doc": doc, "intent": "decimal-bounds-" + how}))
     rng.shuffle(cases)
+    return cases
+
+
+def mutated_results(rng):
+    """the caller overwrites its results in place (elements of slices, one more element within
+    capacity, entries of maps, what pointers point to) and unmarshals again: defaults, empty
+    composites and supplied values of later calls must not have changed, and no two targets (nor a
+    target and the caller's input) may share storage"""
+    cases = []
+    i, st_ = P("int"), P("string")
+    pad = [0]
+
+    def salt(txt):
+        pad[0] += 1
+        return txt[0] + "".join(" \t"[int(b)] for b in bin(pad[0] + 4096)[2:]) + txt[1:]
+
+    for k in range(40):
+        ds_ = salt("[a,b,c]")
+        dn_ = salt("[1,2,3]")
+        dq_ = salt("[\"x\",\"y\"]")
+        word = fresh("w")
+
+        def family(tagkeys):
+            fs = [F(tagkeys[0], Sl(st_), O(**{"def": ds_})), F(tagkeys[1], Sl(i), O(**{"def": dn_})),
+                  F(tagkeys[2], Sl(Ptr(st_)), O(**{"def": dq_})), F(tagkeys[3], Ptr(i), O(**{"def": "5"})),
+                  F(tagkeys[4], Ptr(Ptr(st_)), O(**{"def": word})), F(tagkeys[5], Mp(i)),
+                  F(tagkeys[6], St(F("x", Sl(st_), O(**{"def": ds_})), F("y", Ptr(i), O(**{"def": "7"})))),
+                  F(tagkeys[7], Sl(st_), O(opt=True)), F(tagkeys[8], Mp(Sl(i)), O(opt=True))]
+            if k % 4 == 3:
+                rng.shuffle(fs)
+            return St(*fs)
+
+        keys1 = ["a", "b", "c", "d", "e", "f2", "g", "h", "j"]
+        keys2 = ["s1", "s2", "s3", "s4", "s5", "s6", "s7", "s8", "s9"]
+        modes = [rng.choice(["json", "key", "jsonmap", "form", "httpx-json", "yaml", "keyvaluer", "okey"]) for _ in range(4)]
+
+        def supplied(mode, keys):
+            if mode in STRINGY:
+                return dobj([(keys[7], {"a": [ds("p"), ds("q")]})])
+            return dobj([(keys[7], {"a": [ds("p"), ds("q")]}), (keys[8], dobj([("m", {"a": [dn("1"), dn("2")]})]))])
+
+        plan = [(modes[0], keys1, k % 2 == 0), (modes[1], keys1, k % 3 == 0), (modes[2], keys2, False), (modes[3], keys1, True)]
+        steps = []
+        for mode, keys, sup in plan:
+            t = family(keys)
+            if mode in STRINGY:
+                # parameter maps cannot carry the nested shapes
+                t = St(*[f for f in t["f"] if deref(f["t"])["k"] not in ("map", "struct")])
+            doc = supplied(mode, keys) if sup else dobj([])
+            if mode == "yaml" and not tame(doc):
+                mode = "json"
+            steps.append({"mode": mode, "type": t, "doc": doc, "mutate": True})
+        cases.append(finish({"mode": "seq", "procs1": k % 2 == 1, "steps": steps, "intent": "mutated-results"}))
     return cases
 
 
@@ -2486,6 +2544,7 @@ class C08(Property):
         _SALT[0] = 0
         cases = crosskind(rng, 40 if not big else 400)
         cases += scribbles(rng)
+        cases += mutated_results(rng)
         cases += sequences(rng, 120 if not big else 1200)
         cases += parse_cases(rng, 200 if not big else 3000)
         cases += self_validating(rng)
@@ -2519,7 +2578,8 @@ class C08(Property):
                 return {"id": i, "mode": "scribble", "type": St(), "ctype": c["tag"], "entries": c["entries"]}
             w = {"id": i, "mode": c["mode"], "type": c["type"], "doc": c.get("doc"), "raw": c.get("raw"),
                  "direct": bool(c.get("direct")), "pad": int(c.get("pad") or 0), "repeat": c.get("repeat"),
-                 "validator": c.get("validator"), "ctype": c.get("ctype"), "static": c.get("static") or ""}
+                 "validator": c.get("validator"), "ctype": c.get("ctype"), "static": c.get("static") or "",
+                 "mutate": bool(c.get("mutate"))}
             if c["mode"] == "parse":
                 rq = c["req"]
                 w["req"] = {"path": rq.get("path"), "form": rq.get("form"), "header": rq.get("header"),
